@@ -59,7 +59,8 @@ def punct_keys():
     for ch in PUNCT:
         keys.append(ch)
         keys.append("a" + ch + "b")
-    keys += ["a.b/c", "x y.z", "[a]", "(a)", "a'b\"c", "^a$", "50%", "a\\.b"]
+    keys += ["a.b/c", "x y.z", "[a]", "(a)", "a'b\"c", "^a$", "50%", "a\\.b",
+             "/x", ".x", "x/", "x.", "//", "/a/b", " x", "'q'"]
     return keys
 
 
@@ -73,6 +74,8 @@ def punct_cases():
             ("l", (("m", ((key, 1000),)),)),
             ("m", ((key, ("l", (1000, "a"))),)),
             ("m", ((key, 1000), ("b", ("m", ((key, "a"),))))),
+            ("m", (("a", ("m", ((key, ("m", (("a", 1000),))),))),)),
+            ("m", ((key, ("m", (("a", 1000),))), ("zz", ("m", (("a", 2000),))))),
             ("s", (key,)),
             ("m", (("a", ("s", (key, "b"))),)),
         ]
@@ -92,7 +95,17 @@ def punct_cases():
                      (("all",), ("search", ".", "=", "zz", True)),
                      (("kw", "has_child", (key,), False),),
                      (("all",), ("kw", "parent", (), False)),
-                     (("trav",), ("kw", "parent", (), False))):
+                     (("trav",), ("kw", "parent", (), False)),
+                     (("key", "a"), ("all",), ("kw", "parent", (), False)),
+                     (("all",), ("all",), ("kw", "parent", (), False)),
+                     (("all",), ("all",), ("kw", "parent", ("2",), False)),
+                     (("trav",), ("all",), ("kw", "parent", (), False)),
+                     (("all",), ("kw", "max", ("a",), False)),
+                     (("all",), ("kw", "has_child", ("a",), False)),
+                     (("all",), ("kw", "unique", ("a",), False)),
+                     (("kw", "max", ("a",), False),),
+                     (("kw", "min", ("a",), True),),
+                     (("kw", "distinct", ("a",), False),)):
             plist.append(rp(segs))
         for sk in skeletons:
             out.append((sk, plist))
